@@ -52,13 +52,16 @@ RmsClauses(e) ==
   [ C20_rms_definition |-> OkS(e) /\ AbsQ(e.ret * e.ret * n - 10000 * SumSq(xs)) <= (2 * e.ret + 1) * n ]
 
 (* ---------------- pitch measures: e.ret = [mean, max, min, range, var, std] x 100, rounded -- *)
+(* (the harness may add a large constant to every value handed to the code and takes it off mean, max and min again:  *)
+(*  variance, deviation and range do not depend on it, and a one-pass variance formula loses them to cancellation)      *)
 RECURSIVE MedianOf(_)
 MedianOf(w) == CHOOSE m \in {w[i] : i \in IdxQ(w)} : IsMedian(w, m)
 PitchClauses(e) ==
   LET filtered == IF e.args.window >= 0 THEN [i \in IdxQ(e.xs) |-> MedianOf(WindowAt(e.xs, i, e.args.window \div 2))] ELSE e.xs
       xs == IF e.args.filterZero THEN SelectSeq(filtered, LAMBDA v : v # 0) ELSE filtered
       n == Len(xs)  S == SumSeq(xs)  Q == SumSq(xs)  r == e.ret  sc == e.scale
-  IN [ C20_pitch_empty_gives_zeros |-> (OkS(e) /\ n = 0) => \A i \in 1..6 : r[i] = 0,
+  IN [ C20_pitch_measures_defined_for_every_series |-> OkS(e),      \* a constant run of 0.1 must not end in sqrt of a negative rounding residue
+       C20_pitch_empty_gives_zeros |-> (OkS(e) /\ n = 0) => \A i \in 1..6 : r[i] = 0,
        C20_pitch_mean |-> (OkS(e) /\ n > 0) => AbsQ(r[1] * n * sc - 100 * S) <= n * sc,
        C20_pitch_max_min_range |-> (OkS(e) /\ n > 0) => (r[2] * sc = 100 * MaxSeq(xs) /\ r[3] * sc = 100 * MinSeq(xs)
                                                           /\ r[4] * sc = 100 * (MaxSeq(xs) - MinSeq(xs))),
